@@ -226,6 +226,8 @@ pub mod shm;
 mod state;
 pub mod testing;
 mod util;
+#[cfg(aranya_core_verif)]
+pub mod verif;
 
 pub use buf::*;
 pub use client::*;
